@@ -52,7 +52,7 @@ def run_shard(shard, ctx):
         if kind == "nncontrol":
             variants += [("Sigma", "updated")]
         if kind != "nncontrol":
-            variants += [("Lambda", "fresh"), ("all", "fresh"), ("Sigma", "updated"), ("Sigma", "sliced")] + ([("b_none", "fresh"), ("b_none", "sliced")] if not kind.startswith("identity") else [])
+            variants += [("Lambda", "fresh"), ("all", "fresh"), ("Sigma", "updated"), ("Sigma", "sliced")] + ([("Sigma", "replaced")] if kind in ("full", "diag") else []) + ([("b_none", "fresh"), ("b_none", "sliced")] if not kind.startswith("identity") else [])
         for vi, (ctor, prep) in [(v, va) for v in vis for va in variants]:
             if (ctor, prep) != ("Sigma", "fresh") and vi not in (0, 100):
                 continue
@@ -77,6 +77,9 @@ def run_shard(shard, ctx):
                     objs.exercise_cond(cond)
                     cond.set_y(J(al.points(N, Dy, salt=9)))
                     cond.update_Sigma(J(Sy))
+                elif prep == "replaced":
+                    other, kw, _ = objs.mk_cond(kind, M * -0.5 + 1.0, b + 2.0, Sy, ctor=ctor)
+                    cond = other.replace(M=J(M), b=J(b))
                 elif prep == "sliced":
                     M2 = np.concatenate([M[:1] * -0.5 + 1.0, M], axis=0)
                     b2 = np.concatenate([b[:1] + 3.0, b], axis=0)
